@@ -3,7 +3,7 @@
    Part 2: term algebra and design of nipy/algorithms/statistics/formula/formulae.py. *)
 From Coq Require Import List Bool ZArith QArith Qround Lia Lqa Permutation.
 From NV.Lib Require RingMat.
-From NV.C10 Require Import Model Proofs1 Proofs2 Proofs3.
+From NV.C10 Require Import Model Proofs1 Proofs2 Proofs3 SplineModel Proofs4.
 Import ListNotations.
 Open Scope Q_scope.
 
@@ -288,3 +288,78 @@ Example design_example :
   = Some [(1, [0; 1; 0]%nat, [1; 0]); (1, [0; 0; 1]%nat, [0; 1]);
           (1, [1; 1; 0]%nat, [2; 0]); (1, [1; 0; 1]%nat, [0; 3])].
 Proof. vm_compute. reflexivity. Qed.
+
+(* ================= Part 3: formulae.natural_spline (SplineModel.v) ================= *)
+Open Scope Q_scope.
+
+(* docstring: "A Formula with (len(knots) + order) Terms (if intercept=False, otherwise includes one more Term)";
+   the terms are named ns_s, ns_(s+1), ... consecutively (s = 0 with intercept, 1 without): all distinct,
+   so Formula.design merges none of them - one column per spline function *)
+Theorem natural_spline_term_count : forall order knots (intercept : bool),
+  length (natural_spline order knots intercept)
+  = (length knots + order + (if intercept then 1 else 0))%nat.
+Proof. exact ns_term_count. Qed.
+Print Assumptions natural_spline_term_count.
+
+Theorem natural_spline_names_consecutive_distinct : forall order knots (intercept : bool),
+  ns_names (natural_spline order knots intercept)
+  = seq (if intercept then 0 else 1)%nat (length knots + order + (if intercept then 1 else 0))%nat
+  /\ NoDup (ns_names (natural_spline order knots intercept)).
+Proof. intros. split; [apply ns_names_spec | apply ns_names_nodup]. Qed.
+Print Assumptions natural_spline_names_consecutive_distinct.
+
+(* the design row at datum x: the column of term ns_i (i <= order) is x**i ... *)
+Theorem natural_spline_poly_column : forall order knots (intercept : bool) x (i : nat),
+  ((if intercept then 0 else 1) <= i <= order)%nat ->
+  nth (i - (if intercept then 0 else 1))%nat (ns_row (natural_spline order knots intercept) x) 0
+  = qpow x i.
+Proof. exact ns_poly_column. Qed.
+Print Assumptions natural_spline_poly_column.
+
+(* ... and the column of the j-th listed knot k (any knot order, repeated knots allowed) is 0 up to and
+   INCLUDING the knot and (x-k)**order to the right of it *)
+Theorem natural_spline_knot_column : forall order knots (intercept : bool) x (j : nat),
+  (j < length knots)%nat ->
+  let k := nth j knots 0 in
+  let v := nth (order + 1 + j - (if intercept then 0 else 1))%nat
+               (ns_row (natural_spline order knots intercept) x) 0 in
+  (x <= k -> v == 0) /\ (k < x -> v == qpow (x - k) order).
+Proof. exact ns_knot_column. Qed.
+Print Assumptions natural_spline_knot_column.
+
+(* order 0 (piecewise-constant basis): a knot function is the step [x > k] *)
+Theorem natural_spline_order0_knot_is_step : forall k x,
+  (x <= k -> ns_knot 0 k x == 0) /\ (k < x -> ns_knot 0 k x == 1).
+Proof. exact ns_knot_order0. Qed.
+Print Assumptions natural_spline_order0_knot_is_step.
+
+(* for order >= 1 the code's (x-k)**order * (x > k) IS the truncated power max(x-k, 0)**order;
+   for order 0 it is not (0**0 = 1): the two forms may be exchanged only for order >= 1 *)
+Theorem natural_spline_knot_truncated_power : forall order k x, (1 <= order)%nat ->
+  ns_knot order k x == trunc_power order k x.
+Proof. exact ns_knot_trunc_power. Qed.
+Print Assumptions natural_spline_knot_truncated_power.
+
+Theorem natural_spline_truncated_power_order0_refuted :
+  exists k x, ~ ns_knot 0 k x == trunc_power 0 k x.
+Proof. exact ns_knot_trunc_power_order0_differs. Qed.
+Print Assumptions natural_spline_truncated_power_order0_refuted.
+
+(* at or left of every knot all knot functions vanish: the row is the polynomial part followed by zeros *)
+Theorem natural_spline_knot_columns_zero_left_of_knots : forall order knots j0 x,
+  (forall k, In k knots -> x <= k) ->
+  Forall (fun v => v == 0) (ns_row (ns_knot_terms order j0 knots) x).
+Proof. exact ns_knot_terms_row_zero. Qed.
+Print Assumptions natural_spline_knot_columns_zero_left_of_knots.
+
+(* non-vacuity: docstring example natural_spline(x, knots=[1,3,4], order=3) at 3, 5, 7; and an order-0 spline *)
+Example natural_spline_docstring_example :
+  ns_design 3 [1; 3; 4] false [3; 5; 7]
+  = [[3; 9; 27; 8; 0; 0]; [5; 25; 125; 64; 8; 1]; [7; 49; 343; 216; 64; 27]]
+  /\ ns_names (natural_spline 3 [1; 3; 4] false) = [1; 2; 3; 4; 5; 6]%nat.
+Proof. split; vm_compute; reflexivity. Qed.
+
+Example natural_spline_order0_example :
+  ns_design 0 [1; 3] true [0; 1; 2; 3; 7 # 2] = [[1; 0; 0]; [1; 0; 0]; [1; 1; 0]; [1; 1; 0]; [1; 1; 1]].
+Proof. vm_compute. reflexivity. Qed.
+Close Scope Q_scope.
